@@ -117,6 +117,23 @@ func (e *Endpoint) SendKey(garbage []byte) error {
 	return nil
 }
 
+// SendGarbageLate sends the garbage after the key went out on its own (SendKey(nil)) and the peer's key has been
+// received: nothing in BIP324 forbids a peer to delay its garbage until it knows the session keys, for instance to
+// make the garbage end in a prefix of its own terminator.
+func (e *Endpoint) SendGarbageLate(garbage []byte) error {
+	if !e.keySent || !e.keyRecv || e.termSent || len(e.SentGarbage) != 0 {
+		return ErrState
+	}
+	if len(garbage) > MaxGarbageLen {
+		return ErrGarbageTooBig
+	}
+	e.SentGarbage = append([]byte(nil), garbage...)
+	if err := e.write(garbage); err != nil {
+		return e.fail(err)
+	}
+	return nil
+}
+
 // RecvKey reads (the rest of) the peer's key and derives all session keys.
 func (e *Endpoint) RecvKey() error {
 	if e.keyRecv {
